@@ -330,7 +330,7 @@ def _run(v, tier, seed):
                 if x.get("a") == "Deliver" and x["dl"]: x["dl"] = []; cases.append(("a delivery removed from a step", b2)); break
             b3 = copy.deepcopy(dot_beh)
             for x in b3:
-                if x.get("a") == "Deliver": x["off"] += 1; cases.append(("expected offset of the ReceiveState + 1", b3)); break
+                if private_state and x.get("a") == "Deliver": x["off"] += 1; cases.append(("expected offset of the ReceiveState + 1", b3)); break
             if len(cases) < 2: raise vlib.MachineryError("self test: the sample behaviour has no packet / no delivery to corrupt")
             bf = W("beh_selftest.ndjson"); rp = W("rep_selftest.ndjson")
             vlib.write_ndjson(bf, [{"config": dict(hc("tun", 24, 3), slave="exact")}] + [{"id": i, "steps": c[1]} for i, c in enumerate(cases)])
